@@ -409,6 +409,8 @@ impl<'a> GeneratorState<'a> {
     fn generate_sizeof(&mut self, expr: &Expr, pos: usize) -> Result<ExprType, Error> {
         match expr {
             Expr::Type(s) => {
+                // The blanks inside a type name are free-form (short  int, a tab, a line break)
+                let s = s.split_whitespace().collect::<Vec<&str>>().join(" ");
                 if s.contains("*") {
                     Ok(ExprType::Immediate(2))
                 } else if s == "char" {
